@@ -717,7 +717,8 @@ func compileAssignStmtLeft(context *funcContext, stmt *ast.AssignStmt) (int, []*
 			case ecUpvalue:
 				context.Upvalues.RegisterUnique(st.Value)
 			case ecLocal:
-				if islast {
+				// surplus right-hand expressions are evaluated after this one and may read the local
+				if islast && len(stmt.Rhs) <= len(stmt.Lhs) {
 					ec.reg = context.FindLocalVar(st.Value)
 				}
 			}
